@@ -132,7 +132,10 @@ _claim("C09",
   "always separate, boundaries are observed values, contain every frequent value, strictly increasing, then +inf. "
   "Run-time: all four discretizer classes on continuous/discrete/spiked/tied/NaN samples, exact comparison of "
   "leaders and groups with the model, property counted on transform outputs.",
-  "The 2.5*min_freq clause is checked by counting only (no theorem); aggregates are counted by the harness.",
+  "The 2.5*min_freq clause: proved for all inputs (len_df, q <= 2^50, binary64 premises discharged) in the unit the "
+  "code uses, rows <= 2.25*len_df/q + 2 with q = round(1/min_freq); the literal clause is REFUTED by a witness "
+  "(min_freq=0.29) that is replayed on the real code on every run and listed as known finding O43. Aggregates are "
+  "counted by the harness.",
   "Coq proof (loop invariants by induction on fuel, bit-exact SpecFloat arithmetic) + correspondence by vm_compute")
 _claim("C14",
   "Proof over a model of the selection logic (measure pipeline with early stop, NaN filtering, stable descending "
@@ -143,15 +146,20 @@ _claim("C14",
   "returned. Run-time: real selectors vs the model (order included, tie-insensitive) and measure tables vs exact "
   "recomputation within 1e-9.",
   "Ten behavioural defects are KNOWN FINDINGS (O11, O12, union over measures, ...): the full 'no two returned "
-  "features above thresh_corr' is refuted on the model for two ranking measures. colsample=1 only.",
+  "features above thresh_corr' is refuted on the model for two ranking measures. colsample<1 is modelled with the "
+  "shuffled order read back from the run (random.shuffle is an oracle).",
   "Coq proof (greedy filter invariants) + correspondence against exact rational recomputation")
 _claim("C15",
   "Proved: selection is equivariant under any re-encoding that preserves the measure/association tables, independent "
   "of input order without ties, rank vectors invariant under strictly increasing maps (hence Kruskal H and "
-  "Spearman), |rho| invariant under negation. Run-time: metamorphic pairs on real selectors (negation, rescaling, "
-  "category renaming, row/column permutation, copies and monotone functions of the target).",
-  "kruskal under negation and 'a copy of the target has maximal measure' are covered by the metamorphic runs only; "
-  "RegressionSelector's default measure violates the property (known finding O11).",
+  "Spearman), |rho| invariant under negation, Kruskal H invariant under negation, H <= N-1 with equality for a "
+  "feature that is a copy of / strictly monotone in the class target, chi2 <= n and V^2 <= 1 with equality for a "
+  "perfect association, such a feature is ranked first up to exact ties and returned, colsample samples partition "
+  "the feature list. Run-time: metamorphic pairs on real selectors (negation, power-of-two rescaling, category "
+  "renaming, row/column/X-only/y-only permutation, +-inf, copies and monotone functions of the target, colsample).",
+  "The copy clause is REFUTED for qualitative copies of a BINARY target (Yates correction on the 2x2 table: a finer "
+  "nested feature outranks it) and for exact ties: both are witnesses in Properties/C15.v, the first a known finding; "
+  "RegressionSelector's default measure violates the property (known findings O11, positional pairing).",
   "Coq proof (equivariance, rank invariance) + metamorphic pairs on the real selectors")
 _claim("C17",
   "Proof over a model of update_discretizer on one fitted feature (NaN handling, append of unknown values, group / "
@@ -196,15 +204,20 @@ _claim("C03",
   "Categorical ordering by target rate is a run-time check only (no theorem). Same trusted base as C04/C09.",
   "Coq proof (contiguity invariants, monotone lookup) + proved-sound boolean checkers on real fitted states and probes")
 _claim("C08",
-  "PARTIAL. Proved on the models: the quantile search never runs out of fuel and builds a well-formed order, the "
-  "merging loop is total, grouping keeps orders well formed and loses no value; the run-time invariant "
+  "Proved on the models, for all inputs: the quantitative, ordinal and categorical base fits end in a well-formed "
+  "order covering every training value (sentinel separate iff NaN present, quantitative leaders strictly "
+  "increasing then +inf) or in a clean failure, never an internal error; every grouping the carver enumerates, the "
+  "kept one and the two-stage path keep the order well formed with the same values; chained for one feature "
+  "(C08_fit_pipeline_wf_end_to_end). The run-time invariant "
   "(feature_ok: WF + coverage of training values + strictly increasing leaders ending in +inf) is proved to imply "
   "the property's invariant and is evaluated in Coq on the IMPLEMENTATION's fitted state. Run-time: degenerate "
   "inputs (constant, all-missing, near-unique, many rare values, spikes, 2-150 rows, never-observed ordinal "
   "values) over all classes: exception class, key sets of every per-feature attribute, summary/history/transform "
   "on the fitted object, dropped features untouched.",
-  "No end-to-end theorem 'fit never raises an internal error' for the whole pandas pipeline: absence of "
-  "internal errors is explored, not proved. Known finding: history() keeps dropped features.",
+  "The end-to-end theorems are about the MODEL stages; the carver's write-back composition is defined in Proofs/ "
+  "(not exercised by the correspondence, spot-checked on real fits); pandas glue between the stages (casting, "
+  "crosstabs, copies) is explored by the degenerate-input generator, not proved. Known findings: history() keeps "
+  "dropped features (O34), numeric ordinal rankings (O40).",
   "Coq-evaluated invariant with proved soundness + stage-wise totality/WF theorems + degenerate-input exploration")
 
 _claim("C16",
